@@ -1229,6 +1229,9 @@ func (g *Gen) worldAvailable(name string) bool {
 func (f *Frame) applyIterates(ct *Contract, fn *ssa.Function, args []Val, resT types.Type, st *State, reach string, pos token.Pos, rname string) Val {
 	g := f.g
 	ct.used = true
+	if ct.PkgPath != "" {
+		g.relied[ct.PkgPath+"::"+ct.Key] = true
+	}
 	g.trusted[fn.String()+" (iterator: applies the closure to each stored element, A-ITER)"] = true
 	var clo *Closure
 	for _, a := range args {
